@@ -205,7 +205,7 @@ class Scenario:
         if c == "F":
             return sum(1 for _, f in self.tasks if not f.done()) > 1
         if c == "s":
-            return (loop.live_ready() > 0 or loop.due() > 0) and self.idle_steps < 3
+            return (loop.live_ready() > 0 or loop.due() > 0) and self.idle_steps < 6
         # the clock moves only while the loop is idle ("timers fire on time")
         if c == "a":
             nt = loop.next_timer()
@@ -220,7 +220,7 @@ class Scenario:
         log.add("drain")
         for _ in range(60):
             moved = False
-            while (loop.live_ready() or loop.due()) and self.idle_steps < 3:
+            while (loop.live_ready() or loop.due()) and self.idle_steps < 6:
                 self.op("s")
                 moved = True
             if log.pending:
@@ -231,7 +231,7 @@ class Scenario:
                 self.op("f")
                 moved = True
                 continue
-            if self.idle_steps >= 3:
+            if self.idle_steps >= 6:
                 break          # only a busy-wait is left
             if moved:
                 continue
